@@ -64,6 +64,11 @@ def plan(ctx):
             sets = rnd.sample(sets, 64)
         for i, ch in enumerate(chunks(sets, 16)):
             obs.append(be_l1_ob(XOR, k, m, hd, ch, idx=i))
+    # flat-XOR: every three-data erasure of one hd=4 table (the P^Q scratch-buffer path is taken by a few triples only)
+    import itertools
+    for (k, m, hd) in [(6, 5, 4)] + ([(6, 6, 4), (10, 5, 4)] if thorough else []):
+        for i, ch in enumerate(chunks(list(itertools.combinations(range(k), 3)), 10)):
+            obs.append(xor_l1_ob(k, m, hd, ch, b=4, tag="xor3data", idx=i))
     return {"obs": obs,
             "assumptions": ["L2: fragments come from the independent serializer (encode side is C07); input length enumerated, content symbolic",
                             "unaligned fragment buffers: offset-1 pointers into one-byte-larger objects (all survivors / parities only / data only); CBMC treats fresh objects as aligned",
